@@ -17,6 +17,7 @@ from .core import BudgetExceeded, fork_call, rng, sunk_stdout
 from .intr import Tracer
 
 COUNT_BUDGET = 1_200_000       # line events per count inside a session (rational Meek guard)
+BIG_TEXT = 1_000_000           # renderings longer than this are compared by digest
 FIXED_RULES = ('scotland', 'mpls', 'cfer', 'cfer-batch', 'meek-prf', 'wigm-prf', 'wigm-prf-batch')
 
 _ADDR = re.compile(r' at 0x[0-9a-fA-F]+')
@@ -101,16 +102,25 @@ def exec_session(R, texts, ops, target, want_fp=False):
             return pool[idx]
         return EP(data=texts[idx])
 
+    def shrink(t):
+        "renderings of wide elections run to tens of megabytes: compare those by digest"
+        if isinstance(t, str) and len(t) > BIG_TEXT:
+            return 'sha1:%s length=%d\n%s' % (hashlib.sha1(t.encode('utf-8', 'replace')).hexdigest(), len(t), t[:2000])
+        return t
+
     def render(E, order, intr):
         outs = []
         for name in order:
-            outs.append([name, getattr(E, name)(intr) if intr else getattr(E, name)()])
+            outs.append([name, shrink(getattr(E, name)(intr) if intr else getattr(E, name)())])
         return outs
 
     def do_main(op, intr_k=None):
         "the same election through the package's own driver, Droop.main, reading the file from the simulated disk"
         opts = dict(op['options'])
-        opts['path'] = '/simfs/p%d.blt' % op['profile']
+        # the driver always reads the same path; the file is rewritten before each run, as a user re-running the
+        # counter on an updated ballot file would do
+        opts['path'] = '/simfs/ballots.blt'
+        fs.put(opts['path'], texts[op['profile']].encode('utf-8'))
         want = set(op['render']) or {'report'}
         for name in ('report', 'dump', 'json'):
             opts[name] = name in want
@@ -125,7 +135,7 @@ def exec_session(R, texts, ops, target, want_fp=False):
             finally:
                 tr.remove()
             interrupted = tr.fired is not None
-        return [['main', txt]], interrupted
+        return [['main', shrink(txt)]], interrupted
 
     def do_count(op, intr_k=None):
         if op.get('via') == 'main' and R.Droop is not None:
@@ -150,8 +160,6 @@ def exec_session(R, texts, ops, target, want_fp=False):
 
     from . import simfs     # pylint: disable=import-outside-toplevel
     fs = simfs.SimFS()
-    for i, t in enumerate(texts):
-        fs.put('/simfs/p%d.blt' % i, t.encode('utf-8'))
     with sunk_stdout(), simfs.mounted(R.droop.profile, fs):
         for op in ops:
             kind = op['op']
@@ -581,6 +589,54 @@ def work_grid(R, tier, ti):
                         target=target, tags=['grid_pair'])
             v, info = run_session(R, sess, cache)
             _account(acc, sess, v, info, 'g%d.%d.%d' % (pi, qi, ti), False)
+    return acc
+
+
+def wide_text(n, variant=0):
+    "a valid election with n (>= 256) candidates of which a handful have votes; high ids are ranked"
+    hi = [n, n - 1, n - 2]
+    lines = ["%d 2" % n]
+    if variant:
+        lines.append("-%d" % (n - 3))
+    lines += ["5 %d 1 0" % hi[0], "4 1 %d 0" % hi[1], "3 %d %d 2 0" % (hi[1], hi[0]), "3 2 1 0", "2 %d 0" % hi[2],
+              "%d 3 %d 0" % (n, hi[0]), "0"]
+    lines += ['"c%d"' % i for i in range(1, n + 1)]
+    lines.append('"wide %d"' % n)
+    return "\n".join(lines) + "\n"
+
+
+WIDE_CONFIGS = [{'rule': 'mpls'}, {'rule': 'wigm-prf-batch'},
+                {'rule': 'wigm', 'arithmetic': 'integer', 'defeat_batch': 'zero'}]
+
+
+def wide_sessions():
+    "sessions in which the SIZE of an earlier election differs grossly from the target's (content-dependent state)"
+    small = GRID_TEXTS[0]
+    out = []
+    for ci, cfg in enumerate(WIDE_CONFIGS):
+        other = WIDE_CONFIGS[(ci + 1) % len(WIDE_CONFIGS)]
+        rend = ['report', 'dump', 'json']
+        # small predecessor, wide target
+        out.append(dict(texts=[small, wide_text(270)], tags=['wide_target_after_small'],
+                        ops=[dict(op='count', profile=0, share=False, options=other, render=['report'])],
+                        target=dict(op='count', profile=1, share=False, options=cfg, render=rend)))
+        # wide predecessor, small target
+        out.append(dict(texts=[small, wide_text(300, 1)], tags=['small_target_after_wide'],
+                        ops=[dict(op='count', profile=1, share=False, options=cfg, render=['dump'])],
+                        target=dict(op='count', profile=0, share=False, options=other, render=rend)))
+        # wide predecessor, differently wide target, through the driver
+        out.append(dict(texts=[wide_text(300), wide_text(256, 1)], tags=['wide_target_after_wide'],
+                        ops=[dict(op='count', profile=0, share=False, options=cfg, render=['report'], via='main')],
+                        target=dict(op='count', profile=1, share=False, options=cfg, render=rend, via='main')))
+    return out
+
+
+def work_wide(R, j):
+    "wide arm: session j of wide_sessions()"
+    acc = new_acc()
+    sess = wide_sessions()[j]
+    v, info = run_session(R, sess)
+    _account(acc, sess, v, info, 'w%d' % j, False)
     return acc
 
 
